@@ -1,7 +1,7 @@
 """Re-run every filed seeded change (seeded/<id>/patch.diff) against the current checks: apply to /repo, run all quick checks, undo.
 Prints one line per change (which properties report VIOLATION / UNDECIDED) and fails if a change is no longer reported with a
 VIOLATION line by any check.  With --composed the patched tree is first rewritten by all behaviour-preserving transformations of tools/neutral_sweep.py at once
-(the report must survive the rewrite).  Usage: /venv/bin/python tools/check_seeded.py [--update-meta] [--table] [--composed]"""
+(the report must survive the rewrite).  Usage: /venv/bin/python tools/check_seeded.py [--update-meta] [--table] [--composed] [--only NAME,NAME*,...]"""
 import json
 import pathlib
 import subprocess
@@ -19,9 +19,14 @@ def main():
         return 3
     bad = 0
     rows = []
+    only = None
+    if "--only" in sys.argv:          # --only C01-10,C18-9,...  (names or name prefixes)
+        only = tuple(sys.argv[sys.argv.index("--only") + 1].split(","))
     for d in sorted((VERIF / "seeded").iterdir()):
         patch = d / "patch.diff"
         if not patch.exists():
+            continue
+        if only is not None and not any(d.name == o or (o.endswith("*") and d.name.startswith(o[:-1])) for o in only):
             continue
         r = subprocess.run(["git", "-C", "/repo", "apply", str(patch)], capture_output=True, text=True)
         if r.returncode:
